@@ -28,6 +28,32 @@ func c01Case(c *runner.Ctx) (docs []*model.MDoc, mode uint32, shape string) {
 		sch := gen.WideSchema(r, 140+r.Intn(200))
 		n := 60 + r.Intn(200)
 		return gen.WideBatch(r, sch, n, fmt.Sprintf("w%d", c.Idx)), gen.Mode(r, n), "wide"
+	case c.Idx%400 == 8: // one document carries a term with more than 65535 locations (and one with a frequency beyond 65535); later documents carry the same terms
+		sch := gen.GenSchema(r)
+		docs := gen.GenBatch(r, sch, 3+r.Intn(4), fmt.Sprintf("L%d", c.Idx), gen.DocOpts{Repeat: true})
+		at := r.Intn(len(docs) - 1)
+		nl := 65536 + r.Intn(300)
+		for i := at; i < len(docs); i++ {
+			n := 1 + r.Intn(3)
+			if i == at {
+				n = nl
+			}
+			mt := &model.MTerm{T: []byte("many"), F: n}
+			for q := 0; q < n; q++ {
+				mt.L = append(mt.L, &model.MLoc{P: i*7 + q + 1, S: q * 2, E: q*2 + 1 + i})
+			}
+			heavy := &model.MTerm{T: []byte("heavy"), F: 1 + i}
+			if i == at {
+				heavy.F = 65536 + r.Intn(70000)
+			}
+			docs[i].Fields = append(docs[i].Fields, &model.MField{N: "manyloc", Terms: []*model.MTerm{mt, heavy}})
+		}
+		return docs, []uint32{1025, 1024, 3}[r.Intn(3)], "many-locations"
+	case c.Idx%400 == 9: // field names of >= 128 bytes
+		sch := gen.GenSchema(r)
+		sch.LongNames()
+		n := 2 + r.Intn(40)
+		return gen.GenBatch(r, sch, n, fmt.Sprintf("N%d", c.Idx), gen.DocOpts{Repeat: true}), gen.Mode(r, n), "long-names"
 	case thorough && c.Idx%40000 == 7: // document numbers beyond 65535 (second roaring container)
 		docs, _ := gen.JumboBatch(r, 66000+r.Intn(3000), fmt.Sprintf("h%d", c.Idx))
 		return docs, []uint32{1025, 1024}[r.Intn(2)], "huge"
